@@ -194,6 +194,61 @@ def hierarchy_models(r, n):
     return out
 
 
+# ------------------------------------------------------------------ sequence groups
+def sequence_models(r, n):
+    """Classes with a sequence group of 2-3 adjacent list Element fields (optionally a scalar member, a
+    second group, plain fields around it); instances with lists of UNEQUAL lengths in every order
+    (longer first, shorter first, empty, all empty), None items in nillable list fields."""
+    out = []
+    for _ in range(n):
+        has_kid = r.random() < 0.4
+        members = []
+        for i in range(r.choice([2, 2, 3])):
+            tp = ("class", "K") if has_kid and r.random() < 0.4 else ("prim", r.choice(["int", "str", "bool"]))
+            members.append(F(f"s{i}", "Element", tp, list=True, sequence=1, nillable=r.random() < 0.3,
+                             **({"namespace": r.choice(["urn:a", ""])} if r.random() < 0.2 else {})))
+        if r.random() < 0.25:     # a scalar member in the middle of the group (docs example: b: int)
+            members.insert(1, F("sc", "Element", ("prim", "int"), optional=True, sequence=1, nillable=r.random() < 0.3))
+        fields = []
+        if r.random() < 0.5:
+            fields.append(F("pre", "Element", ("prim", "str"), optional=True))
+        if r.random() < 0.4:
+            fields.append(F("at", "Attribute", ("prim", "int"), optional=True))
+        fields += members
+        if r.random() < 0.4:
+            fields.append(F("mid", "Element", ("prim", "int"), list=True))
+        if r.random() < 0.3:
+            fields += [F("t0", "Element", ("prim", "int"), list=True, sequence=2), F("t1", "Element", ("prim", "str"), list=True, sequence=2)]
+        if r.random() < 0.4:
+            fields.append(F("post", "Element", ("prim", "str"), optional=True))
+        classes = [{"name": "S", "meta": r.choice([{}, {"namespace": "urn:s"}, {"name": "seq", "namespace": "urn:s"}]), "base": None, "fields": fields}]
+        if has_kid:
+            classes.append({"name": "K", "meta": {}, "base": None, "fields": [F("v", "Text", ("prim", "int"), optional=True)]})
+        desc = {"module_ns": None, "enums": [], "root": "S", "slices": ["sequence"], "classes": classes}
+
+        def item(f, allow_none):
+            if allow_none and r.random() < 0.2:
+                return None
+            if f["type"][0] == "class":
+                return {"__cls__": "K", "fields": {"v": r.choice([None, {"__p__": "int", "v": r.randint(0, 9)}])}}
+            t = f["type"][1]
+            return {"__p__": t, "v": {"int": r.randint(0, 99), "str": r.choice(["a", "", "b c"]), "bool": r.random() < 0.5}[t]}
+        cases = []
+        shapes = [(3, 1), (1, 3), (2, 0), (0, 2), (0, 0), (2, 2), (4, 2), (1, 1)]
+        for k in range(5):
+            a, b = r.choice(shapes) if k else shapes[k % len(shapes)]
+            lens = {"s0": a, "s1": b, "s2": r.choice([0, 1, 2, 5]), "t0": r.choice([0, 1, 3]), "t1": r.choice([0, 2]), "mid": r.choice([0, 1, 2])}
+            vals = {}
+            for f in fields:
+                if f.get("list"):
+                    vals[f["name"]] = [item(f, f.get("nillable") and r.random() < 0.5) for _ in range(lens.get(f["name"], 1))]
+                else:
+                    vals[f["name"]] = None if r.random() < 0.4 else item(f, False)
+            cases.append({"recipe": {"__cls__": "S", "fields": vals}, "ignore": False, "derived": None, "hostile": False})
+        out.append({"desc": desc, "src": genmodels.render_source(desc), "classes": [c["name"] for c in classes], "enums": [], "cases": cases})
+    return out
+
+
 def chunks(xs, n):
     k = max(1, (len(xs) + n - 1) // n)
     return [xs[i:i + k] for i in range(0, len(xs), k)]
@@ -367,7 +422,7 @@ def run(ck: Check):
         models.append({"desc": desc, "src": genmodels.render_source(desc), "classes": [c["name"] for c in desc["classes"]],
                        "enums": [], "cases": [{"recipe": rec, "ignore": False, "derived": None, "hostile": False}],
                        "witness": cls})
-    models += hierarchy_models(ck.rng, ck.n(40, 600))
+    models += hierarchy_models(ck.rng, ck.n(40, 600)) + sequence_models(ck.rng, ck.n(40, 600))
     models += gen_models(ck, n_models, per_model)
     res = run_impl("impl_eventgen.py", {"models": [{k: m[k] for k in ("src", "classes", "enums", "cases")} for m in models]},
                    timeout=1500)
